@@ -517,6 +517,11 @@ def families(rng, quick):
             add("dpow_%s_%d" % (lit_value(base), ex), [Asg("u", base), If(Cmp(">", N("a"), I(60)), [Asg("u", F(1.5))]), Ret(Bin("**", N("u"), I(ex)))])
     add("dpow_obj", [Asg("u", N("b")), Ret(Bin("**", N("u"), I(2)))])
     add("dpow_loop", [Asg("u", F(2.0)), ForR("i", [N("a")], [Asg("u", Bin("*", N("u"), F(2.0)))]), Ret(Bin("**", N("u"), I(-1)))])
+    # F5b -- a local inferred as Python int object (marked C integer) raised to a negative power
+    add("pyint_pow_mulf", [Asg("x", I(2)), Asg("w", Bin("*", Bin("**", N("x"), I(-1)), F(2.0))), Ret(N("w"))])
+    add("pyint_pow_add", [Asg("x", I(2)), Asg("w", Bin("+", Bin("**", N("x"), I(-2)), I(1))), Ret(Tup([N("w"), N("x")]))])
+    add("pyint_pow_var", [Asg("x", I(2)), Asg("y", Bin("-", I(1), N("a"))), Ret(Tup([Bin("**", N("x"), N("y"))]))])
+    add("pyint_pow_pos", [Asg("x", I(3)), Asg("w", Bin("*", Bin("**", N("x"), I(3)), F(0.5))), Ret(N("w"))])
     # F6 -- Py_UCS4 locals compared with numbers
     for cmpop in ("==", "<", "!=", ">="):
         add("uchar_for_%s" % cmpop, [Asg("t", S("abc")), Asg("n", I(0)), ForS("c", N("t"), [If(Cmp(cmpop, N("c"), I(98)), [Asg("n", Bin("|", N("n"), I(1)))])]), Ret(N("n"))])
